@@ -104,7 +104,11 @@ class Family:
     DEN = 12
     MAX_LATENTS = 10   # 6^14 * 12^7 < 2^62: the integer einsum cannot overflow
 
-    def __init__(self, g, marks: dict[int, set[int]], rng: random.Random, cards=None, tri_latents=True):
+    def __init__(self, g, marks: dict[int, set[int]], rng: random.Random, cards=None, tri_latents=True, cut=None, den=None):
+        """`cut[pop]`: variables whose incoming edges (directed and bidirected) are removed in population `pop`
+        (an atomic / randomised policy); they get a fresh parentless kernel there"""
+        if den is not None:
+            self.DEN = den
         self.nodes = sorted(nodes_of(g))
         self.idx = {v: i for i, v in enumerate(self.nodes)}
         self.n = len(self.nodes)
@@ -126,16 +130,24 @@ class Family:
         self.lcard = [2 if rng.random() < 0.85 else 3 for _ in range(self.m)]
         self.prior = [_weights(rng, k, 6) for k in self.lcard]
         self.lat_of = {v: [j for j, s in enumerate(self.lat_scope) if v in s] for v in self.nodes}
+        self.struct = {TARGET: {v: (self.pa[v], self.lat_of[v]) for v in self.nodes}}
         self.kern = {TARGET: {v: self._rand_kernel(rng, v) for v in self.nodes}}
         self.marks = {TARGET: set()}
         for pop, mk in sorted(marks.items()):
+            if pop == TARGET:
+                continue
             self.marks[pop] = set(mk)
-            self.kern[pop] = {v: (self._rand_kernel(rng, v) if v in mk else self.kern[TARGET][v]) for v in self.nodes}
+            cutp = set((cut or {}).get(pop, ()))
+            self.struct[pop] = {v: (([], []) if v in cutp else (self.pa[v], self.lat_of[v])) for v in self.nodes}
+            self.kern[pop] = {v: (self._rand_kernel(rng, v, *self.struct[pop][v]) if (v in mk or v in cutp)
+                                  else self.kern[TARGET][v]) for v in self.nodes}
         self._joint = {}
         self._marg = {}
 
-    def _rand_kernel(self, rng, v):
-        shape = [self.card[v]] + [self.card[p] for p in self.pa[v]] + [self.lcard[j] for j in self.lat_of[v]]
+    def _rand_kernel(self, rng, v, pa=None, lats=None):
+        pa = self.pa[v] if pa is None else pa
+        lats = self.lat_of[v] if lats is None else lats
+        shape = [self.card[v]] + [self.card[p] for p in pa] + [self.lcard[j] for j in lats]
         t = np.zeros(shape, dtype=np.int64)
         for key in itt.product(*[range(s) for s in shape[1:]]):
             t[(slice(None),) + key] = _weights(rng, self.card[v], self.DEN)
@@ -158,7 +170,8 @@ class Family:
             if v in do:
                 ops += [np.ones(self.card[v], dtype=np.int64), [self.idx[v]]]
             else:
-                ops += [self.kern[pop][v], [self.idx[v]] + [self.idx[p] for p in self.pa[v]] + [self.n + j for j in self.lat_of[v]]]
+                pa, lats = self.struct[pop][v]
+                ops += [self.kern[pop][v], [self.idx[v]] + [self.idx[p] for p in pa] + [self.n + j for j in lats]]
                 den *= self.DEN
         assert den < 2 ** 62
         arr = np.einsum(*ops, list(range(self.n)), optimize="greedy") if self.n else np.array(1, dtype=np.int64)
@@ -269,6 +282,62 @@ class Family:
     def describe(self):
         return {"cards": {str(v): self.card[v] for v in self.nodes}, "latents": [sorted(s) for s in self.lat_scope],
                 "own_mechanisms": {str(p): sorted(m) for p, m in self.marks.items() if p != TARGET}}
+
+
+class FunctionalTarget:
+    """the target model of a `Family` as a FUNCTIONAL SCM: every observed variable gets a private noise, uniform on
+    `range(DEN)`, and `v := f_v(pa(v), latents(v), noise_v)` is the inverse-cdf of its kernel row; so counterfactual
+    (cross-world) events have a probability: the mass of the noise points on which every world agrees with the event."""
+
+    def __init__(self, fam: Family):
+        self.fam = fam
+        f = fam
+        order = []
+        seen = set()
+        while len(order) < f.n:
+            for v in f.nodes:
+                if v not in seen and all(p in seen for p in f.pa[v]):
+                    order.append(v)
+                    seen.add(v)
+        self.order = order
+        self.F = {}
+        for v in f.nodes:
+            k = f.kern[TARGET][v]                        # axes: value, parents..., latents...
+            cum = np.cumsum(k, axis=0)                   # cum[val, ...] = #noise points mapped to a value <= val
+            eps = np.arange(f.DEN).reshape((1,) * (k.ndim - 1) + (f.DEN,))
+            self.F[v] = (cum[..., None] <= eps[None, ...]).sum(axis=0)   # axes: parents..., latents..., noise -> value
+        shape = list(f.lcard) + [f.DEN] * f.n
+        grids = np.indices(shape).reshape(len(shape), -1)
+        self.lat = grids[:f.m]
+        self.eps = {v: grids[f.m + i] for i, v in enumerate(f.nodes)}
+        w = np.ones(grids.shape[1], dtype=object)
+        for j in range(f.m):
+            w = w * np.array(f.prior[j], dtype=object)[self.lat[j]]
+        self.w = w
+        self.total = int(np.prod([sum(p) for p in f.prior], dtype=object)) * (f.DEN ** f.n) if True else 0
+        self._worlds = {}
+
+    def world(self, do: frozenset):
+        """values of every variable at every noise point under do(`do` = frozenset of (name, value))"""
+        if do not in self._worlds:
+            f = self.fam
+            dod = dict(do)
+            vals = {}
+            for v in self.order:
+                if v in dod:
+                    vals[v] = np.full(self.w.shape[0], dod[v], dtype=np.int64)
+                else:
+                    idx = tuple(vals[p] for p in f.pa[v]) + tuple(self.lat[j] for j in f.lat_of[v]) + (self.eps[v],)
+                    vals[v] = self.F[v][idx]
+            self._worlds[do] = vals
+        return self._worlds[do]
+
+    def prob(self, atoms):
+        """P*(AND of atoms); an atom is (name, frozenset of (name, value)) -> value"""
+        mask = np.ones(self.w.shape[0], dtype=bool)
+        for (name, do, val) in atoms:
+            mask &= (self.world(do)[name] == val)
+        return F(int(self.w[mask].sum()) if mask.any() else 0, self.total)
 
 
 def make_family(g, domains, seed, cards=None):
